@@ -81,6 +81,9 @@ pub fn classify(ops: &[Op], disc: Discipline, cap: usize, strict_full: bool) -> 
     if linearizable(&no_empty, disc, cap, strict_full) { return Some("not-linearizable/false-empty") }
     let no_full: Vec<Op> = ops.iter().copied().filter(|o| o.kind != OpKind::PushFull).collect();
     if strict_full && linearizable(&no_full, disc, cap, strict_full) { return Some("not-linearizable/false-full") }
+    // both kinds of answer at once (an in-flight dequeue makes one thread see 'empty' and another 'full')
+    let neither: Vec<Op> = no_empty.iter().copied().filter(|o| o.kind != OpKind::PushFull).collect();
+    if strict_full && linearizable(&neither, disc, cap, strict_full) { return Some("not-linearizable/false-empty+false-full") }
     Some("not-linearizable/order-or-loss")
 }
 
